@@ -40,14 +40,19 @@ def violation(kind, case, detail, ctx):
     raise Violation(kind, case, detail)
 
 
+POSITIONAL = [2]
+
+
 def make(variant, start, end, include_sign, ext):
     import pregex.meta.essentials as es
+    from pbt import pat
+    values = {'start': start, 'end': end, 'is_extensible': ext}
     if variant == 'Integer':
-        return es.Integer(start, end, include_sign=include_sign, is_extensible=ext)
-    return getattr(es, variant)(start, end, is_extensible=ext)
+        values['include_sign'] = include_sign
+    return pat.call_documented(getattr(es, variant), values, POSITIONAL[0])
 
 
-SIGN_PRE = ['', '', '', '+', '-', '++', '+-', '-+', 'a+', 'a-']
+SIGN_PRE = ['', '', '', '+', '-', '++', '+-', '-+', 'a+', 'a-', ',', '.', ':', ';', '(', '=', '*', '/', '#', '~', '\u2212', '\xb1']
 
 
 def expected_token(variant, include_sign, pre, r, start, end):
@@ -103,6 +108,7 @@ def check_defaults(case, ctx):
 
 def check_case(case, ctx):
     mode = case['mode']
+    POSITIONAL[0] = case.get('positional', 2)
     if mode == 'defaults':
         return check_defaults(case, ctx)
     start, end = case['start'], case['end']
@@ -214,12 +220,13 @@ def gen_case(draw):
         return {'mode': 'ext', 'start': start, 'end': end, 'variant': variant, 'include_sign': False, 'ext': True,
                 'prefix': draw(st.sampled_from(['id', 'x=', '#', 'a', 'No. ', '(', 'é'])),
                 'numerals': draw(st.lists(num, min_size=3, max_size=10))}
-    tok = st.tuples(st.sampled_from(SIGN_PRE), num, st.sampled_from([' ', ' ', ' ', '\n', ' ! ', ', ', ' (', ') ', ' . ']))
+    tok = st.tuples(st.sampled_from(SIGN_PRE), num, st.sampled_from([' ', ' ', ' ', '\n', ' ! ', ', ', ' (', ') ', ' . ', ',', ';', ')', '.', ':']))
     toks = draw(st.lists(tok, min_size=1, max_size=8))
     toks = [list(t) for t in toks]
     if draw(st.booleans()):
         toks[-1][2] = ''       # numeral at the very end of the text
-    return {'mode': 'tokens', 'start': start, 'end': end, 'variant': variant, 'include_sign': inc, 'ext': False, 'tokens': toks}
+    return {'mode': 'tokens', 'start': start, 'end': end, 'variant': variant, 'include_sign': inc, 'ext': False, 'tokens': toks,
+            'positional': draw(st.sampled_from([0, 2, 2, 3, 4]))}
 
 
 def numerals_all():
